@@ -29,7 +29,9 @@ def ivJ (i : Interval) : Json :=
   Json.arr #[chromJ i.chrom, int i.start, int i.stop, text i.name, nat i.score, Json.str (if i.minus then "-" else "+")]
 
 def bhash (b : Bytes) : Json :=
-  natList [b.length, b.foldl (fun h x => (h * 131 + x + 1) % 1000000007) 0]
+  let r := b.foldl (fun (acc : Nat × Nat × Nat) x =>
+    (acc.1 + 1, (acc.2.1 + x + 1) % 1000000007, (acc.2.2 + (acc.1 + 1) * (x + 1)) % 1000000007)) (0, 0, 0)
+  natList [r.1, r.2.1, r.2.2]
 
 def refsJ (refs : List (Bytes × Nat)) : Json := Json.arr (refs.map (fun p => Json.arr #[text p.1, nat p.2])).toArray
 
